@@ -524,6 +524,7 @@ def coq_eval_groups(groups, ty, fns, tag, per=250):
 def build_cases(rnd, tier):
     n_classes = 110 if tier == "quick" else 450
     SG.EXTRA_INJECT = True
+    G.EXTRA_ITEM_GEN = X.gen_json_extra
     ctx, pools = SG.build_world(rnd, n_classes, max_depth=2 if tier == "quick" else 3, field_gen=X.gen_field_main,
                                 ctx_cls=X.XContext)
     X.add_dispatch_classes(rnd, ctx, pools, 40 if tier == "quick" else 200, False, "KD")
@@ -550,6 +551,7 @@ def build_ext_cases(rnd, tier):
     at every position; judged on the implementation only."""
     n_classes = 70 if tier == "quick" else 400
     SG.EXTRA_INJECT = True
+    G.EXTRA_ITEM_GEN = X.gen_json_extra
     ctx, pools = SG.build_world(rnd, n_classes, max_depth=2 if tier == "quick" else 3, prefix="E",
                                 field_gen=X.gen_field_ext, ctx_cls=X.XContext)
     X.add_dispatch_classes(rnd, ctx, pools, 40 if tier == "quick" else 200, True, "ED")
